@@ -42,8 +42,8 @@ pub enum S {
     Slice(Box<S>),
     Array(Box<S>, usize),
     Ptr { mutable: bool, inner: Box<S> },
-    /// `unsafe_c = true` means `unsafe extern "C" fn`, false means plain `fn`.
-    Fn { inputs: Vec<(Option<String>, S)>, output: Option<Box<S>>, unsafe_c: bool },
+    /// `[unsafe] [extern "C"] fn(inputs) [-> output]`; the two header flags are independent.
+    Fn { inputs: Vec<(Option<String>, S)>, output: Option<Box<S>>, is_unsafe: bool, c_abi: bool },
 }
 
 // ---------------------------------------------------------------------------------------------
@@ -111,7 +111,8 @@ pub fn to_type(s: &S) -> Type {
         S::Fn {
             inputs,
             output,
-            unsafe_c,
+            is_unsafe,
+            c_abi,
         } => Type::FunctionPointer(FunctionPointer {
             inputs: inputs
                 .iter()
@@ -121,12 +122,12 @@ pub fn to_type(s: &S) -> Type {
                 })
                 .collect(),
             output: output.as_ref().map(|o| Box::new(to_type(o))),
-            abi: if *unsafe_c {
+            abi: if *c_abi {
                 Abi::C { unwind: false }
             } else {
                 Abi::Rust
             },
-            is_unsafe: *unsafe_c,
+            is_unsafe: *is_unsafe,
         }),
     }
 }
@@ -187,10 +188,10 @@ pub fn from_type(t: &Type) -> Result<S, String> {
             inner: Box::new(from_type(&r.inner)?),
         },
         Type::FunctionPointer(fp) => {
-            let unsafe_c = match (&fp.abi, fp.is_unsafe) {
-                (Abi::Rust, false) => false,
-                (Abi::C { unwind: false }, true) => true,
-                other => return Err(format!("fn pointer header outside the alphabet: {other:?}")),
+            let c_abi = match &fp.abi {
+                Abi::Rust => false,
+                Abi::C { unwind: false } => true,
+                other => return Err(format!("fn pointer abi outside the alphabet: {other:?}")),
             };
             let mut inputs = Vec::new();
             for i in &fp.inputs {
@@ -202,7 +203,8 @@ pub fn from_type(t: &Type) -> Result<S, String> {
                     Some(o) => Some(Box::new(from_type(o)?)),
                     None => None,
                 },
-                unsafe_c,
+                is_unsafe: fp.is_unsafe,
+                c_abi,
             }
         }
     })
@@ -264,11 +266,15 @@ pub fn show(s: &S) -> String {
         S::Fn {
             inputs,
             output,
-            unsafe_c,
+            is_unsafe,
+            c_abi,
         } => {
             let mut o = String::new();
-            if *unsafe_c {
-                o.push_str("unsafe extern \"C\" ");
+            if *is_unsafe {
+                o.push_str("unsafe ");
+            }
+            if *c_abi {
+                o.push_str("extern \"C\" ");
             }
             o.push_str("fn(");
             o.push_str(
@@ -324,11 +330,13 @@ fn map_children(s: &S, f: &dyn Fn(&S) -> S) -> S {
         S::Fn {
             inputs,
             output,
-            unsafe_c,
+            is_unsafe,
+            c_abi,
         } => S::Fn {
             inputs: inputs.iter().map(|(n, t)| (n.clone(), f(t))).collect(),
             output: output.as_ref().map(|o| Box::new(f(o))),
-            unsafe_c: *unsafe_c,
+            is_unsafe: *is_unsafe,
+            c_abi: *c_abi,
         },
     }
 }
@@ -358,11 +366,13 @@ pub fn erase(s: &S) -> S {
         S::Fn {
             inputs,
             output,
-            unsafe_c,
+            is_unsafe,
+            c_abi,
         } => S::Fn {
             inputs: inputs.into_iter().map(|(_, t)| (None, t)).collect(),
             output,
-            unsafe_c,
+            is_unsafe,
+            c_abi,
         },
         o => o,
     }
@@ -527,10 +537,12 @@ pub fn node_desc(s: &S) -> String {
         S::Fn {
             inputs,
             output,
-            unsafe_c,
+            is_unsafe,
+            c_abi,
         } => format!(
-            "{}fn/{}{}",
-            if *unsafe_c { "unsafe-extern-C-" } else { "" },
+            "{}{}fn/{}{}",
+            if *is_unsafe { "unsafe-" } else { "" },
+            if *c_abi { "extern-C-" } else { "" },
             inputs.len(),
             if output.is_some() { "->_" } else { "" }
         ),
